@@ -4356,9 +4356,24 @@ coap_dispatch(coap_context_t *context, coap_session_t *session,
   else
 #endif /* !COAP_DISABLE_TCP */
 #if COAP_SERVER_SUPPORT
-    if (COAP_PDU_IS_REQUEST(pdu))
+    if (COAP_PDU_IS_REQUEST(pdu)) {
+#if COAP_OSCORE_SUPPORT
+      /*
+       * session->oscore_encryption stays set once a protected message was
+       * seen.  A request that came in unprotected must neither pass for a
+       * protected one (OSCORE only resources) nor be answered as one.
+       */
+      uint8_t oscore_encryption = session->oscore_encryption;
+
+      if (dec_pdu == NULL)
+        session->oscore_encryption = 0;
+#endif /* COAP_OSCORE_SUPPORT */
       handle_request(context, session, pdu);
-    else
+#if COAP_OSCORE_SUPPORT
+      if (dec_pdu == NULL)
+        session->oscore_encryption = oscore_encryption;
+#endif /* COAP_OSCORE_SUPPORT */
+    } else
 #endif /* COAP_SERVER_SUPPORT */
 #if COAP_CLIENT_SUPPORT
       if (COAP_PDU_IS_RESPONSE(pdu))
